@@ -437,6 +437,20 @@ func (x *Exec) copyOp(st *State, fr *Frame, cc *ssa.CallCommon, args []Value, in
 	sn, ok := x.ropeLen(sr)
 	switch d := dst.(type) {
 	case ByteView:
+		if !ok && isNumeral(d.Len) && d.Off == 0 {
+			// source of unknown length copied over a whole fixed-size buffer: exact when the lengths agree,
+			// otherwise an uninterpreted function of the source (prefix / zero padded)
+			cur := st.cells[d.Cell].(TV)
+			if total, okc := x.constLen(st, cur.T); okc && fmt.Sprint(total) == d.Len {
+				f := x.enc.DeclFun("bcopyInto"+d.Len, []string{"Bytes"}, "Bytes")
+				nv := ite(eq(app("blen", src.T), d.Len), src.T, app(f, src.T))
+				x.lenHint[nv] = total
+				st.Assume(eq(app("blen", nv), d.Len))
+				st.cells[d.Cell] = TV{T: nv, Ty: cur.Ty}
+				n := ite(app("<", app("blen", src.T), d.Len), app("blen", src.T), d.Len)
+				return []Outcome{{st: st, vals: []Value{TV{T: n, Ty: tInt}}}}
+			}
+		}
 		if !ok || !isNumeral(d.Len) {
 			x.fail("copy with non-constant lengths")
 			return nil
